@@ -584,6 +584,7 @@ func (lr *lifeRun) realSnapshot(probePort bool, modelPort string) string {
 	}
 	byConn := map[int]*cstate{}
 	connOfClient := map[int]int{}
+	idsOfClient := map[int][]int{} // every ConnectionID the handlers of one client connection reported
 	get := func(id int) *cstate {
 		if byConn[id] == nil {
 			byConn[id] = &cstate{}
@@ -606,6 +607,13 @@ func (lr *lifeRun) realSnapshot(probePort bool, modelPort string) string {
 			get(cid).started = append(get(cid).started, e.args[1]+e.args[2])
 			if ci, ok := lr.msgConn[msgid]; ok {
 				connOfClient[ci] = cid
+				seen := false
+				for _, x := range idsOfClient[ci] {
+					seen = seen || x == cid
+				}
+				if !seen {
+					idsOfClient[ci] = append(idsOfClient[ci], cid)
+				}
 			}
 		case "h-end":
 			cid, _ := strconv.Atoi(e.args[0])
@@ -667,6 +675,14 @@ func (lr *lifeRun) realSnapshot(probePort bool, modelPort string) string {
 		lc.mu.Unlock()
 		if lc.tap != nil && !lc.tap.tlsOnly() {
 			closed += ",wire=plaintext-after-upgrade"
+		}
+		if ids := idsOfClient[i]; len(ids) > 1 {
+			// the requests of ONE connection reported different ConnectionIDs
+			ss := make([]string, len(ids))
+			for j, x := range ids {
+				ss[j] = strconv.Itoa(x)
+			}
+			closed += ",ids=" + strings.Join(ss, "/")
 		}
 		parts = append(parts, fmt.Sprintf("c%d:id=%d,started=[%s],ended=[%s],closed=%s,onclose=%d,rx=%d", i, cid,
 			strings.Join(st.started, ";"), strings.Join(es, ";"), closed, st.onclose, rx))
